@@ -435,6 +435,41 @@ pub fn gen_calls(rng: &mut Rng, sw: &Swarm, n: usize) -> Vec<Call> {
         };
         out.push(c);
     }
+    // feedback: a call whose input is what an earlier call worked with
+    // inside — the plaintext a reveal recovered, offered as a hidden value
+    // under the same type, secret and random vector (twice, with another
+    // successful reveal in between), and a hidden value hidden once more
+    if rng.chance(1, 3) {
+        let mut sw2 = sw.clone();
+        sw2.size = SizeRegime::Typical;
+        let attr = *rng.pick(&[7u16, 8, 11, 13, 21, 30, 33]);
+        let avp = gen_avp_of(rng, &sw2, attr);
+        let payload = spec_payload(&avp);
+        let sl = rng.urange(1, 24);
+        let secret = rng.bytes(sl);
+        let rvb = rng.bytes(4);
+        let rv = [rvb[0], rvb[1], rvb[2], rvb[3]];
+        let ll = rng.urange(0, 40);
+        let lp = rng.bytes(ll);
+        let conv = if rng.chance(3, 4) { LenConv::Whole } else { LenConv::Value };
+        if let Some(value) = spec_hide(attr, &payload, &secret, &rv, &lp, &[0x33; 16], conv) {
+            if let Some(plain) = spec_decrypt(attr, &value, &secret, &rv) {
+                let other = gen_avp_of(rng, &sw2, 7);
+                let v2 = spec_hide(7, &spec_payload(&other), &secret, &rv, &[], &[0x44; 16], conv).unwrap_or_default();
+                let r = |v: &Vec<u8>, a: u16| Call::Reveal {
+                    attr: a,
+                    value: v.clone(),
+                    secret: secret.clone(),
+                    rv,
+                };
+                out.push(r(&value, attr));
+                out.push(r(&plain, attr));
+                out.push(r(&v2, 7));
+                out.push(r(&plain, attr));
+                out.push(r(&value, attr));
+            }
+        }
+    }
     // a family of hide / reveal calls whose secrets are related to each
     // other (prefix, extension, one bit, same length): what a cache keyed
     // too coarsely would confuse
@@ -619,6 +654,31 @@ fn exec_c19(case: &Case19, obs: &mut Obs) -> Result<(), Failure> {
         Case19::History { calls, replay } => {
             let recorded: Vec<String> = calls.iter().map(perform).collect();
             obs.steps += (2 * calls.len() + replay.len()) as u64;
+            // the same call twice in one history: the same result twice
+            {
+                let mut first: std::collections::HashMap<String, usize> = std::collections::HashMap::new();
+                for (i, c) in calls.iter().enumerate() {
+                    let key = serde_json::to_string(c).unwrap_or_default();
+                    if let Some(&j) = first.get(&key) {
+                        if recorded[j] != recorded[i] {
+                            let cut = |s: &str| if s.len() > 200 { format!("{}...", &s[..200]) } else { s.to_string() };
+                            return Err(Failure::new(
+                                "C19",
+                                "same-result-in-any-history",
+                                calls[i].name(),
+                                format!(
+                                    "{} with identical arguments returned {} as call #{j} and {} as call #{i} of one history",
+                                    calls[i].name(),
+                                    cut(&recorded[j]),
+                                    cut(&recorded[i])
+                                ),
+                            ));
+                        }
+                    } else {
+                        first.insert(key, i);
+                    }
+                }
+            }
             // each call once more on a thread of its own: a fresh thread has
             // fresh thread-local state, so anything a previous call left
             // behind on this thread shows up as a difference
